@@ -61,7 +61,8 @@ def main():
         files = meta.get('files') or sorted(set(re.findall(r'^\+\+\+ b/(\S+)', open(os.path.join(d, 'patch.diff')).read(), re.M)))
         rows.append('| %s | %s | %s | %s | %s | %s |' % (
             sid, ', '.join(os.path.basename(f) for f in files), (meta.get('needs') or '').split('. ')[0][:170].replace('|', '/'),
-            (suite.get('summary') or '?').replace('|', '/')[:60],
+            ('34 passed + the known collection error (= baseline)' if (suite.get('summary') or '').startswith('34 passed, 2 warnings, 1 error')
+             else (suite.get('summary') or '?').replace('|', '/')[:60]),
             (first or ('**MISSED**' if res else 'not run')) + (' (on the tree before fix 8d0f8ea; now ineffective, see -rb)' if meta.get('status') else ''),
             (FIRST.get(sid) or ('re-based variant (mine) of %s' % sid[:-3] if sid.endswith('-rb') else 'caught as the checks stood')).replace('|', '/')))
     table = ['| change | file | needs (first sentence of meta.json) | repo suite with the patch | caught by (first violation line) | first run |',
